@@ -233,6 +233,12 @@ func (m *Module) start(reports chan *report) {
 				fmt.Sprintf("Starting module %s failed", m.Name),
 				fmt.Sprintf("Failed to start module: %s", err.Error()),
 			)
+			// The module did not come online: set it back to offline in order
+			// to let the modules it depends on shut down in order.
+			m.Lock()
+			m.status = StatusOffline
+			m.Unlock()
+			m.notifyOfChange()
 		} else {
 			m.Lock()
 			m.status = StatusOnline
